@@ -695,7 +695,442 @@ def replay_oracles(ctx, rep):
     for f in unbuilt_state_hits(h, real):
         print("  ORACLE: build %d did not execute %s although %s" % (f["build"], f["target"], f["why"]))
         rc = 1
+    for f in pending_taint_misses(h, real):
+        print("  ORACLE: build %d did not execute %s although it was tainted and has not been executed successfully since" % (f["build"], f["target"]))
+        rc = 1
+    if set(h.get("tags", [])) & {"bincut", "spell"}:
+        for f in rebuilt_state_executions(h, real):
+            print("  ORACLE: build %d executed %s although the previous build left a result for exactly this state" % (f["build"], f["target"]))
+            rc = 1
     for n, l in interrupted_taints(h, real):
         print("  ORACLE: %s ran successfully in the interrupted build %d (a dependant was started) but is still tainted" % (l, n))
         rc = 1
     return rc
+
+
+# ================================================================================================
+# Round d (fourth mutation round)
+# ================================================================================================
+
+def pending_taint_misses(hist, real):
+    """Model-independent (the C13 rule, used by C02 as part of "executed set = predicted set"): a dependency-free target that was
+    tainted by `grog taint` and has not been executed SUCCESSFULLY since (its command failed, a check failed, an output was
+    missing) is still distrusted: every build that selects it must execute it. -> [{build, target}]"""
+    pending = set()
+    fails = []
+    for b in H.walk(hist, real):
+        o, ws, s = b["obs"], b["ws"], b["step"]
+        if s["k"] != "build":
+            continue
+        sel = H.selected(ws, s["patterns"])
+        ex = set(o["executed"])
+        pending |= set(H.matched_targets(ws, b["taints_since"]))
+        pending &= set(ws["targets"])
+        if s.get("interrupt"):
+            pending -= ex
+            continue
+        if s.get("fail_fast") and not o["ok"]:
+            continue
+        for l in sorted(pending & set(sel)):
+            t = ws["targets"][l]
+            if H.rdeps(ws, l):
+                continue
+            if l not in ex:
+                fails.append({"build": b["n"], "target": l})
+                pending.discard(l)
+            elif t.get("beh", 0) == 0 and not (t.get("failif") and o["pre"].get(t["failif"]) is not None) \
+                    and all(H.check_holds(c, o["fs"]) for c in t.get("checks", [])) \
+                    and all(o["fs"].get(H.out_path(t, op)) is not None for op in H.all_outs(t)):
+                pending.discard(l)
+    return fails
+
+
+def rebuilt_state_executions(hist, real, minimal_of=None):
+    """Model-independent early cut-off / no-op oracle. Between two consecutive successful cache-enabled builds: a target that is
+    neither no-cache nor tainted nor has a failing output check, whose own state is unchanged and every direct dependency of which
+    has declared outputs (incl. bin_output) carrying byte-identical contents after both builds, has a result for exactly this state
+    in the cache (the previous build made or used it): it must be restored, not executed. -> [{build, target}]"""
+    fails = []
+    if any(s["k"] == "drop" for s in hist["steps"]):
+        return fails
+    for b in H.walk(hist, real):
+        o, ws, s, prev = b["obs"], b["ws"], b["step"], b["prev"]
+        if s["k"] != "build" or prev is None or prev["step"]["k"] != "build":
+            continue
+        if not (o["ok"] and prev["obs"]["ok"] and s.get("enable_cache", True) and prev["step"].get("enable_cache", True)):
+            continue
+        if b["taints_since"] or s.get("interrupt") or prev["step"].get("interrupt"):
+            continue
+        pws, po = prev["ws"], prev["obs"]
+        psel = set(H.selected(pws, prev["step"]["patterns"]))
+        minimal = s.get("minimal", False) if minimal_of is None else minimal_of(s)
+        failing = failing_prechecks(ws, o["pre"])
+        ex, pex = set(o["executed"]), set(po["executed"])
+        for l in sorted(ex):
+            t = ws["targets"].get(l)
+            if t is None or l not in pws["targets"] or l not in psel or t.get("nocache") or l in failing or l in o["pre_tainted"]:
+                continue
+            deps = H.rdeps(ws, l)
+            if deps != H.rdeps(pws, l):
+                continue
+            if any(not H.all_outs(ws["targets"][d]) or not H.all_outs(pws["targets"][d])
+                   or bool(ws["targets"][d].get("nocache")) != bool(pws["targets"][d].get("nocache")) for d in deps):
+                continue
+            if minimal and any(d not in ex or d not in pex for d in deps):
+                continue
+            if own_state(ws, l, s) == own_state(pws, l, prev["step"]) and dep_state(ws, l, o["fs"]) == dep_state(pws, l, po["fs"]):
+                fails.append({"build": b["n"], "target": l})
+    return fails
+
+
+def gen_taintfail2(rng, minimal=False):
+    """`grog taint X`, then builds in which the command of X FAILS for a reason outside its key (an external flag file), then the
+    cause is removed: X has to run in every one of these builds and once more afterwards; then nothing runs"""
+    ws = H.gen_ws(rng, n=rng.randint(2, 4), split_p=0.0, shared_p=0.0, outless_p=0.0, link_p=0.0)
+    order = order_of(ws)
+    for l in order:
+        ws["targets"][l]["nocache"] = False
+    roots = [l for l in order if not H.rdeps(ws, l)]
+    x = rng.choice(roots)
+    flag = "ext/fail_%s.flag" % ws["targets"][x]["name"]
+    ws["targets"][x]["failif"] = flag
+    steps = [bstep(minimal)]
+    if rng.random() < 0.5:
+        steps.append(bstep(minimal))
+    for _ in range(rng.randint(1, 2)):
+        r = rng.random()
+        pats = [x] if r < 0.6 else ["//" + ws["targets"][x]["pkg"] + "/..."] if r < 0.8 else ["//..."]
+        steps.append({"k": "taint", "patterns": pats})
+        steps.append(estep(ws, "the command of %s fails from now on (external file %s exists; its key is unchanged)" % (x, flag), [[flag, "1\n"]]))
+        steps.append(bstep(minimal))
+        if rng.random() < 0.3:
+            steps.append(bstep(minimal))
+        steps.append(estep(ws, "the cause of the failure of %s is removed (%s deleted)" % (x, flag), [[flag, None]]))
+        steps.append(bstep(minimal))
+        steps.append(bstep(minimal))
+    return {"ws": ws, "algo": rng.choice(["xxh3", "sha256"]), "steps": steps, "tags": ["taintfail2", "oracle-only"] + (["minimal"] if minimal else [])}
+
+
+def respell(rng, ws, p=0.6):
+    """declare file outputs with non-canonical but legal package-relative paths: ./x, d//x, d/./x"""
+    n = 0
+    for l in order_of(ws):
+        t = ws["targets"][l]
+        if t.get("split"):
+            continue
+        for o in t["outs"]:
+            if o["dir"] or rng.random() >= p:
+                continue
+            rel = o["rel"]
+            forms = ["./" + rel]
+            if "/" in rel:
+                forms += [rel.replace("/", "//", 1), rel.replace("/", "/./", 1)]
+            o["rel"] = rng.choice(forms)
+            n += 1
+    return n
+
+
+def gen_spell(rng, minimal=False):
+    """outputs declared as `./gen.txt`, `dist//notes.txt`, `dist/./notes.txt` (with dependants reading them); ordinary histories"""
+    for _ in range(10):
+        ws = H.gen_ws(rng, n=rng.randint(2, 4), split_p=0.0, shared_p=0.0, link_p=0.0, outless_p=0.0, dir_p=0.15)
+        if respell(rng, ws) >= 1:
+            break
+    steps = [bstep(minimal), bstep(minimal)]
+    cur = ws
+    for _ in range(rng.randint(1, 3)):
+        r = rng.random()
+        if r < 0.3:
+            tp = H.gen_tamper(rng, cur, kinds=("delete", "modify"), prefer_dirs=0.0)
+            if tp:
+                steps.append(estep(cur, "tamper: " + tp[1], tp[0]))
+                steps.append(bstep(minimal))
+                continue
+        e = H.gen_edit(rng, cur, ["content", "salt", "fp"])
+        if e and H.wf(e[0]):
+            steps.append(estep(e[0], e[2], e[1]))
+            cur = e[0]
+            steps.append(bstep(minimal))
+            if rng.random() < 0.5:
+                steps.append(bstep(minimal))
+    return {"ws": ws, "algo": rng.choice(["xxh3", "sha256"]), "steps": steps, "tags": ["spell"] + (["minimal"] if minimal else [])}
+
+
+def gen_bincut(rng, minimal=False):
+    """tool (ONLY a bin_output; its command strips the comment lines of tool.src) <- use_tool [<- top]; lib (regular output, same
+    stripping) <- use_lib as control. Edits of comment lines re-execute tool / lib with byte-identical outputs: their dependants
+    must be cut off; edits of code lines and of the data must not be."""
+    ws = {"targets": {}, "aliases": {}, "links": {},
+          "files": {"pk/tool.src": "# tool, revision 1\nwc -l < \"$1\"\n", "pk/lib.src": "# lib, revision 1\nlib line\n", "pk/data.txt": "one\ntwo\n"}}
+    tool = H.raw_target("pk", "tool", ["tool.src"], [], [], "{ echo '#!/bin/sh'; grep -v '^#' tool.src; } > tool.sh")
+    tool["bin"] = "tool.sh"
+    ws["targets"]["//pk:tool"] = tool
+    ws["targets"]["//pk:use_tool"] = H.raw_target("pk", "use_tool", ["data.txt"], ["//pk:tool"], ["use_tool.out"], "$(bin :tool) data.txt > use_tool.out")
+    ws["targets"]["//pk:lib"] = H.raw_target("pk", "lib", ["lib.src"], [], ["lib.txt"], "grep -v '^#' lib.src > lib.txt")
+    ws["targets"]["//pk:use_lib"] = H.raw_target("pk", "use_lib", ["data.txt"], ["//pk:lib"], ["use_lib.out"], "cat lib.txt data.txt > use_lib.out")
+    if rng.random() < 0.5:
+        ws["targets"]["//pt:top"] = H.raw_target("pt", "top", [], ["//pk:use_tool", "//pk:use_lib"], ["top.txt"],
+                                                 "cat ../pk/use_tool.out ../pk/use_lib.out > top.txt")
+    steps = [bstep(minimal), bstep(minimal)]
+    cur = ws
+    rev = [1]
+
+    def edit(f, fn, what):
+        nonlocal cur
+        w2 = copy.deepcopy(cur)
+        w2["files"][f] = fn(cur["files"][f])
+        steps.append(estep(w2, what))
+        cur = w2
+    for _ in range(rng.randint(2, 4)):
+        r = rng.random()
+        rev[0] += 1
+        which = rng.choice(["tool", "lib"])
+        f = "pk/%s.src" % which
+        if r < 0.6:
+            edit(f, lambda c: "# %s, revision %d\n" % (which, rev[0]) + c.split("\n", 1)[1],
+                 "comment line of %s (the output of //pk:%s is reproduced byte for byte)" % (f, which))
+        elif r < 0.8:
+            edit(f, lambda c: c + ("echo extra%d\n" % rev[0] if which == "tool" else "more%d\n" % rev[0]), "code line added to %s" % f)
+        else:
+            edit("pk/data.txt", lambda c: c + "line%d\n" % rev[0], "content of pk/data.txt")
+        steps.append(bstep(minimal))
+        if rng.random() < 0.3:
+            steps.append(bstep(minimal))
+    return {"ws": ws, "algo": rng.choice(["xxh3", "sha256"]), "steps": steps, "tags": ["bincut", "oracle-only"] + (["minimal"] if minimal else [])}
+
+
+def gen_overrun(rng, minimal=False):
+    """a command with a `timeout` that overruns it and exits 0 when it is asked to terminate (`trap 'exit 0' TERM`): the target has
+    failed (it did not finish within its timeout) and nothing may be cached; triggered by an edit, a taint or the no-cache tag"""
+    ws = H.gen_ws(rng, n=rng.randint(2, 3), split_p=0.0, shared_p=0.0, outless_p=0.0, link_p=0.0)
+    for l in order_of(ws):
+        ws["targets"][l]["nocache"] = False
+    steps = [bstep(minimal)]
+    cur = ws
+    for _ in range(rng.randint(1, 2)):
+        l = rng.choice(order_of(cur))
+        w2 = copy.deepcopy(cur)
+        w2["targets"][l]["beh"] = 7
+        if rng.random() < 0.3:
+            w2["targets"][l]["nocache"] = True
+        steps.append(estep(w2, "behaviour of %s := 7 (overruns its 300ms timeout, exits 0 on SIGTERM)" % l))
+        if rng.random() < 0.3:
+            steps.append({"k": "taint", "patterns": [l]})
+        steps.append(bstep(minimal, patterns=[l] if rng.random() < 0.5 else ["//..."]))
+        if rng.random() < 0.5:
+            steps.append(bstep(minimal))        # nothing was cached: it runs (and fails) again
+        steps.append(estep(cur, "behaviour of %s := 0 again" % l))
+        steps.append(bstep(minimal))
+    return {"ws": ws, "algo": rng.choice(["xxh3", "sha256"]), "steps": steps, "tags": ["overrun"] + (["minimal"] if minimal else [])}
+
+
+def gen_selfcheck(rng):
+    """output checks that look at the target's OWN declared output (`test -f <output>`: a stamp / version file standing for external
+    state): established -> cached -> the output is deleted (alone, or with every other output): the failing check must force the
+    execution although the cache could restore the file. Mode all only (under minimal a cache hit does not materialise the file)."""
+    ws = H.gen_ws(rng, n=rng.randint(2, 4), split_p=0.0, shared_p=0.0, outless_p=0.0, link_p=0.0, stamp_p=0.5)
+    chosen = []
+    for l in order_of(ws):
+        t = ws["targets"][l]
+        t["nocache"] = False
+        fo = [o for o in t["outs"] if not o["dir"]]
+        if fo and (rng.random() < 0.7 or not chosen):
+            o = rng.choice(fo)
+            t["checks"] = [{"flag": H.out_path(t, o), "exp": None, "form": rng.randint(0, 5)}]
+            chosen.append(l)
+    steps = [bstep(), bstep()]
+    cur = ws
+    for _ in range(rng.randint(2, 3)):
+        l = rng.choice(chosen)
+        t = cur["targets"][l]
+        f = t["checks"][0]["flag"]
+        r = rng.random()
+        if r < 0.5:
+            steps.append(estep(cur, "tamper: delete %s (the file the output check of %s looks at)" % (f, l), [[f, None]]))
+        elif r < 0.8:
+            steps.append(estep(cur, "tamper: wipe all declared outputs", [[p, None] for p in sorted(H.all_out_paths(cur))]))
+        else:
+            e = H.gen_edit(rng, cur, ["content", "salt"])
+            if e and H.wf(e[0]):
+                steps.append(estep(e[0], e[2], e[1]))
+                cur = e[0]
+        steps.append(bstep(patterns=[l] if rng.random() < 0.3 else ["//..."]))
+        if rng.random() < 0.4:
+            steps.append(bstep())
+    return {"ws": ws, "algo": rng.choice(["xxh3", "sha256"]), "steps": steps, "tags": ["selfcheck", "oracle-only"]}
+
+
+def gen_bintool2(rng):
+    """tool with ONLY a bin_output whose command does not chmod it (`cp tool.src tool.sh`: grog marks bin outputs executable), used
+    through $(bin :tool); the CAS blob of the tool is lost and the workspace is a fresh checkout while the dependant is edited: the
+    tool has to be re-created (mode all: by its own task; mode minimal: when the dependant loads it). sha256 workspaces."""
+    same_pkg = rng.random() < 0.5
+    up = "pt" if same_pkg else "pu"
+    ws = {"targets": {}, "aliases": {}, "links": {},
+          "files": {"pt/tool.src": "#!/bin/sh\necho \"tool-%d says $1\"\n" % rng.randint(0, 99), up + "/use.src": "a0\n"}}
+    tool = H.raw_target("pt", "tool", ["tool.src"], [], [], "cp tool.src tool.sh")
+    tool["bin"] = "tool.sh"
+    ws["targets"]["//pt:tool"] = tool
+    ws["targets"]["//%s:use" % up] = H.raw_target(up, "use", ["use.src"], ["//pt:tool"], ["use.txt"],
+                                                 "$(bin %s) \"$(cat use.src)\" > use.txt" % (":tool" if same_pkg else "//pt:tool"))
+    if rng.random() < 0.4:
+        ws["targets"]["//px:top"] = H.raw_target("px", "top", [], ["//%s:use" % up], ["top.txt"], "cat ../%s/use.txt > top.txt" % up)
+    outs = sorted(H.all_out_paths(ws))
+    cur = ws
+    n = [0]
+    steps = [bstep()]
+
+    def edit_use():
+        nonlocal cur
+        n[0] += 1
+        w2 = copy.deepcopy(cur)
+        w2["files"][up + "/use.src"] = "a%d\n" % n[0]
+        steps.append(estep(w2, "content of %s/use.src" % up))
+        cur = w2
+    for _ in range(rng.randint(2, 3)):
+        r = rng.random()
+        if r < 0.7:
+            steps.append({"k": "drop", "path": "pt/tool.sh"})
+            if rng.random() < 0.8:
+                steps.append(estep(cur, "tamper: wipe all declared outputs", [[p, None] for p in outs]))
+            else:
+                steps.append(estep(cur, "tamper: delete pt/tool.sh", [["pt/tool.sh", None]]))
+            edit_use()
+        elif r < 0.85:
+            steps.append(estep(cur, "tamper: wipe all declared outputs", [[p, None] for p in outs]))
+            edit_use()
+        else:
+            edit_use()
+        steps.append(bstep(patterns=["//..."] if rng.random() < 0.5 else ["//%s:use" % up]))
+    return {"ws": ws, "algo": "sha256", "steps": steps, "tags": ["bintool", "bintool-lostblob", "oracle-only"]}
+
+
+def gen_ncdep(rng):
+    """a NO-CACHE dependant of a cacheable dependency: the dependency goes v1 -> v2 -> v1 (cache hit on v1 while the workspace holds
+    v2) or the workspace is a fresh checkout; the no-cache target runs in every build and must see the current dependency outputs"""
+    ws = H.gen_ws(rng, n=rng.randint(2, 4), split_p=0.0, shared_p=0.0, outless_p=0.0, link_p=0.0)
+    order = order_of(ws)
+    for l in order:
+        ws["targets"][l]["nocache"] = False
+    cands = [x for x in order[:-1] if H.src_files_of(ws, x)]
+    x = rng.choice(cands) if cands else order[0]
+    if not H.src_files_of(ws, x):
+        i = ws["targets"][x]["name"][1:]
+        ws["targets"][x]["globs"].append("e%s.txt" % i)
+        ws["files"]["%s/e%s.txt" % (ws["targets"][x]["pkg"], i)] = "v0\n"
+    ys = [y for y in order if x in H.rdeps(ws, y)]
+    if not ys:
+        y = order[order.index(x) + 1]
+        ws["targets"][y]["deps"].append(x)
+        ys = [y]
+    y = ys[0]
+    ws["targets"][y]["nocache"] = True
+    src = H.real_path(ws, H.src_files_of(ws, x)[0])
+    v1 = ws
+    steps = []
+
+    def build():
+        steps.append(bstep(patterns=[y] if rng.random() < 0.5 else ["//..."]))
+    build()
+    cur = v1
+    for _ in range(rng.randint(2, 3)):
+        r = rng.random()
+        if r < 0.6:
+            v2 = copy.deepcopy(cur)
+            v2["files"][src] = "w%d\n" % rng.randint(100, 999)
+            steps.append(estep(v2, "content of %s (input of %s, the cached dependency of the no-cache %s)" % (src, x, y)))
+            build()
+            steps.append(estep(cur, "content of %s back to the version built before" % src))
+            build()
+        else:
+            steps.append(estep(cur, "tamper: wipe all declared outputs", [[p, None] for p in sorted(H.all_out_paths(cur))]))
+            build()
+    return {"ws": ws, "algo": rng.choice(["xxh3", "sha256"]), "steps": steps, "tags": ["ncdep"]}
+
+
+def gen_testcmd(rng, minimal=False):
+    """`grog test` next to `grog build`: libraries with tests (target names ending in `test`; a test step selects the tests and their
+    dependency closure, a build step the other targets), the cache disabled in each of the three ways the setting can be given:
+    --enable-cache=false, GROG_ENABLE_CACHE=false, `enable_cache = false` in grog.toml"""
+    algo = rng.choice(["xxh3", "sha256"])
+    ws = {"targets": {}, "aliases": {}, "files": {}, "links": {}}
+    tests, others = [], []
+    for i in range(rng.randint(1, 2)):
+        pkg = "p%d" % i
+        ws["files"]["%s/e%d.txt" % (pkg, i)] = "v%d\n" % rng.randint(0, 99)
+        ws["files"]["%s/t%d.txt" % (pkg, i)] = "v%d\n" % rng.randint(0, 99)
+        lib = H.lab(pkg, "lib%d" % i)
+        ws["targets"][lib] = mk_target(pkg, "lib%d" % i, ["e%d.txt" % i], [others[0]] if others and rng.random() < 0.5 else [], ["o%d.txt" % i],
+                                       salt="s%d" % rng.randint(0, 9))
+        others.append(lib)
+        tl = H.lab(pkg, "lib%d_test" % i)
+        ws["targets"][tl] = mk_target(pkg, "lib%d_test" % i, ["t%d.txt" % i], [lib], ["r%d.txt" % i] if rng.random() < 0.5 else [],
+                                      salt="s%d" % rng.randint(0, 9))
+        tests.append(tl)
+    if rng.random() < 0.6:
+        ws["targets"]["//pz:app"] = mk_target("pz", "app", [], [others[0]], ["app.txt"])
+        others.append("//pz:app")
+    toml_on = 'hash_algorithm = "%s"\n' % algo
+    toml_off = toml_on + "enable_cache = false\n"
+    cur = ws
+
+    def st(cmd, **kw):
+        return bstep(minimal, cmd=cmd, patterns=sorted(tests) if cmd == "test" else sorted(others), **kw)
+    steps = [st("test"), st("build"), st("test")]
+    for _ in range(rng.randint(3, 4)):
+        cmd = rng.choice(["test", "test", "build"])
+        way = rng.choice(["flag", "env", "toml"])
+        if rng.random() < 0.3:
+            w2 = copy.deepcopy(cur)
+            if rng.random() < 0.6:
+                f = rng.choice(sorted(w2["files"]))
+                w2["files"][f] = "w%d\n" % rng.randint(100, 999)
+                steps.append(estep(w2, "content of %s" % f))
+            else:
+                l = rng.choice(sorted(w2["targets"]))
+                w2["targets"][l]["salt"] = "s%d" % rng.randint(10, 99)
+                steps.append(estep(w2, "command of %s" % l))
+            cur = w2
+        if way == "toml":
+            steps.append(estep(cur, "grog.toml: enable_cache = false", [["grog.toml", toml_off]]))
+        steps.append(st(cmd, enable_cache=False, disable_via=way))
+        if way == "toml":
+            steps.append(estep(cur, "grog.toml: enable_cache back to the default", [["grog.toml", toml_on]]))
+        if rng.random() < 0.6:
+            steps.append(st(rng.choice(["test", "build"])))
+            if rng.random() < 0.5:
+                steps.append(st("test"))
+    return {"ws": ws, "algo": algo, "steps": steps, "tags": ["testcmd", "oracle-only"] + (["minimal"] if minimal else [])}
+
+
+def gen_bigout(rng, minimal=False):
+    """a NO-CACHE target (root or middle of the graph) rewrites a 9 MiB file output in every build; its cached dependants must stay
+    cached while the bytes are the same, and re-run when they really change"""
+    has_gen = rng.random() < 0.6
+    ws = {"targets": {}, "aliases": {}, "links": {}, "files": {"pg/gen.in": "payload%d\n" % rng.randint(0, 99), "pp/pack.in": "p%d\n" % rng.randint(0, 99)}}
+    if has_gen:
+        ws["targets"]["//pg:gen"] = H.raw_target("pg", "gen", ["gen.in"], [], ["gen.out"], "tr a-z A-Z < gen.in > gen.out")
+    ws["targets"]["//pp:pack"] = H.raw_target("pp", "pack", ["pack.in"], ["//pg:gen"] if has_gen else [], ["pack.bin"],
+                                              "{ cat pack.in" + (" ../pg/gen.out" if has_gen else "") + "; head -c 9437184 /dev/zero; } > pack.bin", nocache=True)
+    ws["targets"]["//ps:sum"] = H.raw_target("ps", "sum", [], ["//pp:pack"], ["sum.out"], "cksum < ../pp/pack.bin > sum.out")
+    if rng.random() < 0.5:
+        ws["targets"]["//pr:report"] = H.raw_target("pr", "report", [], ["//ps:sum"], ["report.out"], "sed 's/^/sum: /' ../ps/sum.out > report.out")
+    steps = [bstep(minimal), bstep(minimal), bstep(minimal)]
+    cur = ws
+    for _ in range(rng.randint(1, 2)):
+        r = rng.random()
+        if r < 0.4:
+            f = "pg/gen.in" if has_gen and rng.random() < 0.5 else "pp/pack.in"
+            w2 = copy.deepcopy(cur)
+            w2["files"][f] = "changed%d\n" % rng.randint(100, 999)
+            steps.append(estep(w2, "content of %s (pack.bin really changes)" % f))
+            cur = w2
+            steps.append(bstep(minimal))
+        elif r < 0.7 and has_gen:
+            steps.append({"k": "taint", "patterns": ["//pg:gen"]})
+            steps.append(bstep(minimal))
+        else:
+            steps.append(bstep(minimal, enable_cache=False))
+            steps.append(bstep(minimal))
+        steps.append(bstep(minimal))
+    return {"ws": ws, "algo": rng.choice(["xxh3", "sha256"]), "steps": steps, "tags": ["bigout", "oracle-only"] + (["minimal"] if minimal else [])}
